@@ -236,6 +236,9 @@ def run(c, chk):
     from . import c16
     c16.whole_array_copy_protected(c, chk, 'R18.5', c16.owned_members(c))
 
+    # ---- R18.6 ---------------------------------------------------------------------------------
+    user_object_released(c, chk, ex)
+
     # ---- R18.4 ---------------------------------------------------------------------------------
     term = ('abort', 'exit', '_exit', '__assert_fail')
     nterm = 0
@@ -367,3 +370,43 @@ def init_defaults_paths(c, f, ex):
     if len(hdrs) != 1:
         return [p for p in ex.explore(f)]
     return [p for p in ex.explore(f, start=hdrs[0], stop=[hdrs[0]])]
+
+
+def user_object_released(c, chk, ex):
+    """R18.6: the object a parse callback made for a pointer option belongs to the library from then on: on every path
+    on which cfg_setopt() does not store it, it is handed to the option's release callback (if there is one)"""
+    chk.rule('R18.6', 'an object made by the parse callback is stored in the option or handed to the release callback on every path (also when an allocation fails afterwards)')
+    fn = c.need('cfg_setopt')
+    paths = [p for p in ex.explore(fn) if p.end == 'ret']
+    # the stack slots that receive a user pointer: their content is stored into a value's "ptr" member on some path
+    slots = set()
+    for p in paths:
+        for e in p.events:
+            if e.kind == 'store' and e.addr[0] == 'fld' and e.addr[3] in ('ptr', 'string') and e.val[0] == 'ld' and e.val[1][0] == 'alloca':
+                slots.add(e.val[1])
+    n = 0
+    bad = None
+    for p in paths:
+        cb = [e for e in p.events if e.kind == 'call' and e.name == 'indirect:parsecb' and len(e.args) > 3 and e.args[3] in slots]
+        if not cb:
+            continue
+        ok_cb = any(cn[0] == 'icmp' and cb[0].res in (cn[2], cn[3]) and sym.C0 in (cn[2], cn[3]) and ((cn[1] == 'eq') == t) for cn, t, _ in p.assume)
+        if not ok_cb:
+            continue          # the callback refused: it made nothing
+        n += 1
+        A = cb[0].args[3]
+        stored = any(e.kind == 'store' and e.addr[0] == 'fld' and e.addr[3] in ('ptr', 'string') and e.val[0] == 'ld' and e.val[1] == A for e in p.events)
+        released = any(e.kind == 'call' and e.name == 'indirect:freecb' and e.args and e.args[0][0] == 'ld' and e.args[0][1] == A for e in p.events)
+        nothing = False
+        for cn, t, _ in p.assume:
+            na = fp.is_null_assumption(cn, t)
+            if na and na[1] and ((na[0][0] == 'ld' and na[0][1] == A) or (na[0][0] == 'ld' and na[0][1][0] == 'fld' and na[0][1][3] == 'freecb')):
+                nothing = True
+        if not (stored or released or nothing):
+            bad = bad or p
+    if bad is not None:
+        chk.fail('R18.6', 'user-object-dropped', c.where(bad.last_ins), 'cfg_setopt() returns %s on a path where the parse callback has made an object that is neither stored in '
+                 'the option nor handed to the release callback (%s): the object is lost' % ('failure' if bad.retval == sym.C0 else 'success', fp.cond_text(bad, 5)))
+    elif n:
+        chk.ok('R18.6', 'cfg_setopt: %d paths after a successful pointer parse callback' % n, 'object stored, or freecb(object), or no object / no release callback', sample=True)
+    chk.floor('R18.6 paths after a pointer parse callback', n, 4)
